@@ -105,7 +105,10 @@ class C13(Property):
             "MatchingBindingFilter.get_targets chain vs the Lean model vs the property's own statement (survivors and their order). "
             "(B) placement: the real DefaultScheduler (fake connectors that suspend inside the critical section, FIFO event loop as in "
             "asyncio) on 2..4 targets with filler jobs occupying some of them; the job must be allocated on the first surviving target "
-            "that could host it when the request was issued; every scheduler step replayed on the Lean model. Non-trivial = distinct "
+            "that could host it when the request was issued; every scheduler step replayed on the Lean model. (C) one scheduler, many "
+            "filters: 3..7 successive jobs of different steps on ONE real scheduler, each with a chain of 1..3 filters drawn from a pool "
+            "of 2..5 differently named matching filters (capacity never limiting): the job must land on the first target its OWN filter "
+            "chain keeps; compared with the model's filter environment keyed by the extracted cache key. Non-trivial = distinct "
             "case with >= 2 targets and >= 1 rule.")
     trusted_base = [
         "translator harness/sfv/translate/matchguards.py (ast: comparisons of MatchingRule.eval, any/all, container of get_targets, "
@@ -125,7 +128,7 @@ class C13(Property):
                   "start and lock hand-over into an ordered scan (trusted; exercised on the real scheduler with suspending connectors)")
     assumptions = ["filters are matching filters (no shuffle filter)", "asyncio starts tasks in creation order and hands locks over FIFO",
                    "the targets of a binding are distinct objects (a repeated object is de-duplicated by the filter)"]
-    quick_budget_s = 300
+    quick_budget_s = 600
 
     # ---------------------------------------------------------------------------------------- A
     def _filter_cases(self, ctx: Ctx):
@@ -308,6 +311,133 @@ class C13(Property):
             ctx.fail("placement:not-first-admissible", f"declared {op['targets']}, survivors {survivors}, admissible when requested {admissible}: "
                      f"job placed on {got}, expected {admissible[0]}", sample)
 
+    # ---------------------------------------------------------------------------------------- C
+    def _gen_shared_scheduler(self, rng):
+        """ONE scheduler, several differently named matching filters: successive jobs of different steps, each with a
+        chain of 1..3 filters taken from a pool (capacity is never the limit: 50-slot locations)"""
+        nd = rng.randint(2, 4)
+        deps = [{"name": f"d{di}", "wraps": None, "locs": [{"name": f"d{di}l0", "hw": None, "slots": 50, "wraps": None}]} for di in range(nd)]
+        targets = []
+        for d in deps:
+            targets.append({"dep": d["name"], "locations": 1, "service": None})
+            if rng.random() < 0.4:
+                targets.append({"dep": d["name"], "locations": 1, "service": rng.choice(["s0", "s1"])})
+        rng.shuffle(targets)
+        targets = targets[:4]
+        cfg = {"deployments": deps, "sizes": {d["name"]: {} for d in deps}, "targets": targets}
+        dep_names = [d["name"] for d in deps]
+        pool = {}
+        for k in range(rng.randint(2, 5)):
+            rules = gen_filter(rng, dep_names)
+            if rng.random() < 0.5:
+                rules.append({"target": rng.choice(dep_names), "job": []})
+            pool[f"flt{k}"] = rules
+        ops = []
+        for j in range(rng.randint(3, 7)):
+            chain = [rng.choice(sorted(pool)) for _ in range(rng.choice([1, 1, 2, 2, 3]))]
+            order = list(range(len(targets)))
+            rng.shuffle(order)
+            ops.append({"op": "schedule", "rid": j + 1, "job": j, "step": 20 + j, "tag": "0",
+                        "req": {"cores": 1.0, "memory": 1.0, "storage": []}, "targets": order,
+                        "inputs": {p: rng.choice(VALUES[:5] if rng.random() < 0.9 else VALUES) for p in (PORTS if rng.random() < 0.85 else PORTS[:1])},
+                        "filters": [{"name": n, "type": "matching", "config": {"filters": pool[n]}} for n in chain], "yields": 2})
+            ops.append({"op": "settle"})
+        return cfg, ops
+
+    @staticmethod
+    def _real_error(req: dict) -> str | None:
+        txt = req.get("error_text") or ""
+        if req.get("error") is None:
+            return None
+        if "did not find any matching targets" in txt:
+            return "noMatch"
+        if txt.startswith("ValueError"):
+            return "missingInput"
+        if txt.startswith("WorkflowDefinitionException"):
+            return "unsupportedType"
+        return req["error"]
+
+    def _shared_scheduler(self, ctx: Ctx):
+        rng = ctx.rng
+        n = 150 if ctx.tier == "quick" else 1500
+        if ctx.mode == "search":
+            n *= 2
+        flines, fexpect, fmeta = [], [], []
+        slines, smetas = [], []
+        for _ in range(n):
+            if ctx.out_of_time():
+                ctx.extra["incomplete"] = True
+                break
+            seed = rng.randrange(1 << 30)
+            cfg, ops = self._gen_shared_scheduler(random.Random(seed))
+            names = Names()
+            world, checks, timed_out, executed = H.run_scenario(cfg, ops, seed, timeout=20.0, names=names, shuffle=False, suspend_seed=seed)
+            self._check_shared(ctx, world, cfg, executed, seed, timed_out, names, flines, fexpect, fmeta)
+            cl = H.config_lines(world)
+            ml, evs = H.model_lines(world)
+            smetas.append((world, len(slines) + len(cl), evs, cfg, executed, seed))
+            slines += cl + ml
+        got = ctx.lean("Drivers/C13.lean", flines)
+        for g, e, ln, m in zip(got, fexpect, flines, fmeta):
+            if e is not None and g.split("+")[0] != e:
+                ctx.disagree("filter environment model vs DefaultScheduler.schedule (filters of one scheduler)",
+                             f"{ln}: code {e!r}, Lean model {g!r}", {"part": "shared", **m})
+        outs = ctx.lean("Drivers/C10.lean", slines)
+        for world, off, evs, cfg, executed, seed in smetas:
+            for what, detail in H.compare(world, outs[off:off + len(evs)], evs)[:1]:
+                ctx.disagree(f"scheduler model vs DefaultScheduler: {what}", detail[:1200], {"part": "shared", "cfg": cfg, "ops": executed, "seed": seed})
+
+    def _check_shared(self, ctx: Ctx, world, cfg, executed, seed, timed_out, names, flines, fexpect, fmeta):
+        tg = cfg["targets"]
+        meta = {"cfg": cfg, "ops": executed, "seed": seed}
+        flines.append("sreset")
+        fexpect.append(None)
+        fmeta.append(meta)
+        n_filters = set()
+        for op in executed:
+            if op["op"] != "schedule":
+                continue
+            name = f"/s{op['step']}/{op['tag']}"
+            chain = op["filters"]
+            n_filters.update(f["name"] for f in chain)
+            # the property's statement with the job's OWN filters
+            cur = list(op["targets"])
+            for f in chain:
+                cur = [ti for ti in cur if spec_keep(f["config"]["filters"], op["inputs"], tg[ti]["dep"], tg[ti].get("service"))]
+            a = world.scheduler.job_allocations.get(name)
+            got = world.target_index(a.target) if a is not None else None
+            err = self._real_error(world.requests.get(op["rid"], {}))
+            sample = {"part": "shared", **meta, "job": name, "declared": op["targets"], "filters": [f["name"] for f in chain],
+                      "own_survivors": cur, "allocated_on": got, "raised": err}
+            ctx.case({k: v for k, v in sample.items() if k not in ("cfg", "ops")}, (repr(cfg), name, repr(chain), repr(op["inputs"])) if len(chain) >= 1 else None,
+                     f"shared:chain={len(chain)}")
+            if timed_out:
+                ctx.fail("placement:hang", "scenario did not finish", sample)
+                return
+            if got is not None and got not in cur:
+                ctx.fail("placement:filtered-target-used", f"job {name} (filters {[f['name'] for f in chain]}) placed on target {got}, which its own filters "
+                         f"discard (survivors {cur})", sample)
+            elif got is not None and cur and got != cur[0]:
+                ctx.fail("placement:not-first-admissible", f"job {name}: survivors {cur} (all can host it), placed on {got}", sample)
+            elif got is None and err == "noMatch" and cur:
+                ctx.fail("schedule:no-match-although-targets-survive", f"job {name} (filters {[f['name'] for f in chain]}): schedule() raised 'no matching "
+                         f"targets' although its own filters keep {cur}", sample)
+            # model line: targets in the declared order, identified by their index
+            ts = ",".join(f"{ti}:{names.id(tg[ti]['dep'])}:{'-' if tg[ti].get('service') is None else names.id(tg[ti]['service'])}" for ti in op["targets"])
+            cs = []
+            for f in chain:
+                rs = []
+                for rule in f["config"]["filters"]:
+                    dep, svc, preds = rule_parts(rule)
+                    ps = "+".join(f"{names.id(p)}={names.id(m)}" for p, m in preds.items()) or "-"
+                    rs.append(f"{names.id(dep)}:{'-' if svc is None else names.id(svc)}:{ps}")
+                cs.append(f"{names.id(f['name'])}@{names.id(f['type'])}@{','.join(rs)}")
+            ins = ",".join(f"{names.id(p)}={'U' if isinstance(v, dict) else names.id(str(v))}" for p, v in op["inputs"].items()) or "-"
+            flines.append(f"sf {ts} {';'.join(cs)} {ins}")
+            fexpect.append(f"ok {got}" if got is not None else (f"err {err}" if err else None))
+            fmeta.append(sample)
+        ctx.count(f"shared:distinct-filters-on-one-scheduler={min(len(n_filters), 4)}")
+
     def explore(self, ctx: Ctx) -> None:
         import logging
         from streamflow.log_handler import logger
@@ -316,6 +446,7 @@ class C13(Property):
         try:
             self._run_filters(ctx, self._filter_cases(ctx))
             self._placement(ctx)
+            self._shared_scheduler(ctx)
         finally:
             logger.setLevel(old)
 
@@ -325,6 +456,15 @@ class C13(Property):
             case = (r["targets"], r["filters"], r["inputs"], [tuple(x) for x in r.get("same_object", [])])
             print("case:", case)
             self._run_filters(ctx, [tuple(case)])
+        elif r.get("part") == "shared":
+            names = Names()
+            world, checks, timed_out, executed = H.run_scenario(r["cfg"], r["ops"], r["seed"], timeout=20.0, names=names, shuffle=False,
+                                                                suspend_seed=r["seed"])
+            fl, fe, fm = [], [], []
+            self._check_shared(ctx, world, r["cfg"], executed, r["seed"], timed_out, names, fl, fe, fm)
+            got = ctx.lean("Drivers/C13.lean", fl)
+            for ln, e, g in zip(fl, fe, got):
+                print("  ", ln, "| code:", e, "| model:", g)
         elif r.get("part") == "placement":
             names = Names()
             world, checks, timed_out, executed = H.run_scenario(r["cfg"], r["ops"], r["seed"], timeout=20.0, names=names, shuffle=False,
